@@ -414,3 +414,227 @@ pub proof fn lemma_rdata_reads_back(b: Seq<u8>, p: int, d: RecordTypeWithData)
         _ => {}
     }
 }
+
+// ---- the message level (C04): what was written stays what it is when more is appended, so the sections can be chained
+pub proof fn lemma_spec_name_bounds(b: Seq<u8>, s: int, p: int)
+    requires spec_name(b, s, p) is Some
+    ensures 0 <= s <= p, p < spec_name(b, s, p)->Some_0.1 <= b.len()
+    decreases s, b.len() - p
+{
+    let size = b[p];
+    if size != 0 && size <= 63 { lemma_spec_name_bounds(b, s, p + 1 + size); }
+}
+pub proof fn lemma_name_at_bounds(b: Seq<u8>, p: int)
+    requires name_at(b, p) is Some
+    ensures 0 <= p < name_at(b, p)->Some_0.1 <= b.len()
+{ lemma_spec_name_bounds(b, p, p); }
+pub proof fn lemma_question_prefix(b1: Seq<u8>, b2: Seq<u8>, p: int, q: Question)
+    requires is_prefix(b1, b2), question_at(b1, p) is Some
+    ensures question_at(b2, p) == question_at(b1, p), 0 <= p < question_at(b1, p)->Some_0 <= b1.len(), question_is(q, b1, p) ==> question_is(q, b2, p)
+{
+    lemma_name_at_prefix(b1, b2, p);
+    lemma_name_at_bounds(b1, p);
+    let e = name_at(b1, p)->Some_0.1;
+    assert(b2[e] == b1[e] && b2[e + 1] == b1[e + 1] && b2[e + 2] == b1[e + 2] && b2[e + 3] == b1[e + 3]);
+}
+// names / integers / octets inside a well-formed RDATA lie within it
+proof fn lemma_name_in(b1: Seq<u8>, b2: Seq<u8>, p: int)
+    requires is_prefix(b1, b2), name_at(b1, p) is Some
+    ensures name_at(b2, p) == name_at(b1, p), 0 <= p < ne(b1, p) <= b1.len(), ne(b2, p) == ne(b1, p), forall|n: DomainName| nm_is(n, b1, p) == nm_is(n, b2, p)
+{ lemma_name_at_prefix(b1, b2, p); lemma_name_at_bounds(b1, p); }
+pub proof fn lemma_rdata_prefix(t: RecordType, b1: Seq<u8>, b2: Seq<u8>, p: int, rdl: int, d: RecordTypeWithData)
+    requires is_prefix(b1, b2), 0 <= p, 0 <= rdl, rdata_end(t, b1, p, rdl) is Some
+    ensures rdata_end(t, b2, p, rdl) == rdata_end(t, b1, p, rdl), rdata_end(t, b1, p, rdl)->Some_0 <= b1.len(),
+        rdata_end(t, b1, p, rdl) == Some(p + rdl) && rdata_is(d, t, b1, p, rdl) ==> rdata_is(d, t, b2, p, rdl)
+{
+    match t {
+        RecordType::NS | RecordType::MD | RecordType::MF | RecordType::CNAME | RecordType::MB | RecordType::MG | RecordType::MR | RecordType::PTR => { lemma_name_in(b1, b2, p); }
+        RecordType::MINFO => { lemma_name_in(b1, b2, p); lemma_name_in(b1, b2, ne(b1, p)); }
+        RecordType::MX => { lemma_name_in(b1, b2, p + 2); assert(b2[p] == b1[p] && b2[p + 1] == b1[p + 1]); }
+        RecordType::SRV => { lemma_name_in(b1, b2, p + 6); assert(b2[p] == b1[p] && b2[p + 1] == b1[p + 1] && b2[p + 2] == b1[p + 2] && b2[p + 3] == b1[p + 3] && b2[p + 4] == b1[p + 4] && b2[p + 5] == b1[p + 5]); }
+        RecordType::SOA => {
+            lemma_name_in(b1, b2, p); lemma_name_in(b1, b2, ne(b1, p));
+            let q = ne(b1, ne(b1, p));
+            assert forall|i: int| q <= i < q + 20 implies b2[i] == b1[i] by {}
+        }
+        RecordType::A => { assert(b2[p] == b1[p] && b2[p + 1] == b1[p + 1] && b2[p + 2] == b1[p + 2] && b2[p + 3] == b1[p + 3]); }
+        RecordType::AAAA => { assert forall|i: int| p <= i < p + 16 implies b2[i] == b1[i] by {} }
+        _ => { assert(b2.subrange(p, p + rdl) =~= b1.subrange(p, p + rdl)); }
+    }
+}
+pub proof fn lemma_rr_prefix(b1: Seq<u8>, b2: Seq<u8>, p: int, rr: ResourceRecord)
+    requires is_prefix(b1, b2), rr_at(b1, p) is Some
+    ensures rr_at(b2, p) == rr_at(b1, p), 0 <= p < rr_at(b1, p)->Some_0 <= b1.len(), rr_is(rr, b1, p) ==> rr_is(rr, b2, p)
+{
+    reveal(rr_at);
+    lemma_name_at_prefix(b1, b2, p);
+    lemma_name_at_bounds(b1, p);
+    let e = name_at(b1, p)->Some_0.1;
+    assert forall|i: int| e <= i < e + 10 implies b2[i] == b1[i] by {}
+    let t = spec_rtype_from(be16(b1[e], b1[e + 1]));
+    let rdl = be16(b1[e + 8], b1[e + 9]) as int;
+    lemma_rdata_prefix(t, b1, b2, e + 10, rdl, rr.rtype_with_data);
+}
+// the offsets of the questions / records written so far do not move when more is appended
+pub proof fn lemma_q_off_prefix(b1: Seq<u8>, b2: Seq<u8>, n: nat)
+    requires is_prefix(b1, b2), forall|j: nat| j < n ==> question_at(b1, #[trigger] q_off(b1, j)) is Some
+    ensures forall|j: nat| j <= n ==> #[trigger] q_off(b2, j) == q_off(b1, j)
+    decreases n
+{
+    if n > 0 {
+        lemma_q_off_prefix(b1, b2, (n - 1) as nat);
+        let k = (n - 1) as nat;
+        assert(question_at(b1, q_off(b1, k)) is Some);
+        assert(q_off(b2, k) == q_off(b1, k));
+        lemma_question_prefix(b1, b2, q_off(b1, k), arbitrary());
+        assert(q_off(b2, n) == question_at(b2, q_off(b2, k))->Some_0);
+        assert(q_off(b1, n) == question_at(b1, q_off(b1, k))->Some_0);
+        assert forall|j: nat| j <= n implies #[trigger] q_off(b2, j) == q_off(b1, j) by { if j < n { assert(j <= (n - 1) as nat); } }
+    }
+}
+pub proof fn lemma_rr_off_prefix(b1: Seq<u8>, b2: Seq<u8>, s: int, n: nat)
+    requires is_prefix(b1, b2), forall|j: nat| j < n ==> rr_at(b1, #[trigger] rr_off(b1, s, j)) is Some
+    ensures forall|j: nat| j <= n ==> #[trigger] rr_off(b2, s, j) == rr_off(b1, s, j)
+    decreases n
+{
+    if n > 0 {
+        lemma_rr_off_prefix(b1, b2, s, (n - 1) as nat);
+        let k = (n - 1) as nat;
+        assert(rr_at(b1, rr_off(b1, s, k)) is Some);
+        assert(rr_off(b2, s, k) == rr_off(b1, s, k));
+        lemma_rr_prefix(b1, b2, rr_off(b1, s, k), arbitrary());
+        assert(rr_off(b2, s, n) == rr_at(b2, rr_off(b2, s, k))->Some_0);
+        assert(rr_off(b1, s, n) == rr_at(b1, rr_off(b1, s, k))->Some_0);
+        assert forall|j: nat| j <= n implies #[trigger] rr_off(b2, s, j) == rr_off(b1, s, j) by { if j < n { assert(j <= (n - 1) as nat); } }
+    }
+}
+// every question / record of a message has its canonical TYPE and CLASS code (Unknown(x) only for codes without a name of their own)
+pub open spec fn msg_canonical(m: Message) -> bool {
+    &&& forall|i: int| 0 <= i < m.questions@.len() ==> qtype_wf((#[trigger] m.questions@[i]).qtype) && qclass_wf(m.questions@[i].qclass)
+    &&& forall|i: int| 0 <= i < m.answers@.len() ==> rtype_wf(spec_rtype_of((#[trigger] m.answers@[i]).rtype_with_data)) && rclass_wf(m.answers@[i].rclass)
+    &&& forall|i: int| 0 <= i < m.authority@.len() ==> rtype_wf(spec_rtype_of((#[trigger] m.authority@[i]).rtype_with_data)) && rclass_wf(m.authority@[i].rclass)
+    &&& forall|i: int| 0 <= i < m.additional@.len() ==> rtype_wf(spec_rtype_of((#[trigger] m.additional@[i]).rtype_with_data)) && rclass_wf(m.additional@[i].rclass)
+}
+// the first n questions / records (of a section starting at s) are well-formed where they stand and are the given ones
+pub open spec fn qs_written(qs: Seq<Question>, n: int, b: Seq<u8>) -> bool {
+    forall|j: int| 0 <= j < n ==> question_at(b, #[trigger] q_off(b, j as nat)) is Some && question_is(qs[j], b, q_off(b, j as nat))
+}
+pub open spec fn rrs_written(rrs: Seq<ResourceRecord>, n: int, b: Seq<u8>, s: int) -> bool {
+    forall|j: int| 0 <= j < n ==> rr_at(b, #[trigger] rr_off(b, s, j as nat)) is Some && rr_is(rrs[j], b, rr_off(b, s, j as nat))
+}
+pub proof fn lemma_qs_written_extend(qs: Seq<Question>, n: int, b1: Seq<u8>, b2: Seq<u8>)
+    requires is_prefix(b1, b2), 0 <= n < qs.len(), qs_written(qs, n, b1), q_off(b1, n as nat) == b1.len(),
+        question_at(b2, b1.len() as int) == Some(b2.len() as int), question_is(qs[n], b2, b1.len() as int)
+    ensures qs_written(qs, n + 1, b2), q_off(b2, (n + 1) as nat) == b2.len()
+{
+    assert forall|j: nat| j < n implies question_at(b1, #[trigger] q_off(b1, j)) is Some by { let ji = j as int; assert(0 <= ji < n); assert(ji as nat == j); assert(question_at(b1, q_off(b1, ji as nat)) is Some); }
+    lemma_q_off_prefix(b1, b2, n as nat);
+    assert forall|j: int| 0 <= j < n + 1 implies question_at(b2, #[trigger] q_off(b2, j as nat)) is Some && question_is(qs[j], b2, q_off(b2, j as nat)) by {
+        assert(q_off(b2, j as nat) == q_off(b1, j as nat));
+        if j < n { lemma_question_prefix(b1, b2, q_off(b1, j as nat), qs[j]); }
+    }
+    assert(q_off(b2, n as nat) == b1.len());
+}
+pub proof fn lemma_rrs_written_extend(rrs: Seq<ResourceRecord>, n: int, b1: Seq<u8>, b2: Seq<u8>, s: int)
+    requires is_prefix(b1, b2), 0 <= n < rrs.len(), rrs_written(rrs, n, b1, s), rr_off(b1, s, n as nat) == b1.len(),
+        rr_at(b2, b1.len() as int) == Some(b2.len() as int), rr_is(rrs[n], b2, b1.len() as int)
+    ensures rrs_written(rrs, n + 1, b2, s), rr_off(b2, s, (n + 1) as nat) == b2.len()
+{
+    assert forall|j: nat| j < n implies rr_at(b1, #[trigger] rr_off(b1, s, j)) is Some by { let ji = j as int; assert(0 <= ji < n); assert(ji as nat == j); assert(rr_at(b1, rr_off(b1, s, ji as nat)) is Some); }
+    lemma_rr_off_prefix(b1, b2, s, n as nat);
+    assert forall|j: int| 0 <= j < n + 1 implies rr_at(b2, #[trigger] rr_off(b2, s, j as nat)) is Some && rr_is(rrs[j], b2, rr_off(b2, s, j as nat)) by {
+        assert(rr_off(b2, s, j as nat) == rr_off(b1, s, j as nat));
+        if j < n { lemma_rr_prefix(b1, b2, rr_off(b1, s, j as nat), rrs[j]); }
+    }
+    assert(rr_off(b2, s, n as nat) == b1.len());
+}
+// a finished section stays what it is while the following sections are appended
+pub proof fn lemma_qs_written_keep(qs: Seq<Question>, n: int, b1: Seq<u8>, b2: Seq<u8>)
+    requires is_prefix(b1, b2), 0 <= n <= qs.len(), qs_written(qs, n, b1)
+    ensures qs_written(qs, n, b2), q_off(b2, n as nat) == q_off(b1, n as nat)
+{
+    assert forall|j: nat| j < n implies question_at(b1, #[trigger] q_off(b1, j)) is Some by { let ji = j as int; assert(0 <= ji < n); assert(ji as nat == j); assert(question_at(b1, q_off(b1, ji as nat)) is Some); }
+    lemma_q_off_prefix(b1, b2, n as nat);
+    assert forall|j: int| 0 <= j < n implies question_at(b2, #[trigger] q_off(b2, j as nat)) is Some && question_is(qs[j], b2, q_off(b2, j as nat)) by {
+        assert(q_off(b2, j as nat) == q_off(b1, j as nat));
+        lemma_question_prefix(b1, b2, q_off(b1, j as nat), qs[j]);
+    }
+}
+pub proof fn lemma_rrs_written_keep(rrs: Seq<ResourceRecord>, n: int, b1: Seq<u8>, b2: Seq<u8>, s: int)
+    requires is_prefix(b1, b2), 0 <= n <= rrs.len(), rrs_written(rrs, n, b1, s)
+    ensures rrs_written(rrs, n, b2, s), rr_off(b2, s, n as nat) == rr_off(b1, s, n as nat)
+{
+    assert forall|j: nat| j < n implies rr_at(b1, #[trigger] rr_off(b1, s, j)) is Some by { let ji = j as int; assert(0 <= ji < n); assert(ji as nat == j); assert(rr_at(b1, rr_off(b1, s, ji as nat)) is Some); }
+    lemma_rr_off_prefix(b1, b2, s, n as nat);
+    assert forall|j: int| 0 <= j < n implies rr_at(b2, #[trigger] rr_off(b2, s, j as nat)) is Some && rr_is(rrs[j], b2, rr_off(b2, s, j as nat)) by {
+        assert(rr_off(b2, s, j as nat) == rr_off(b1, s, j as nat));
+        lemma_rr_prefix(b1, b2, rr_off(b1, s, j as nat), rrs[j]);
+    }
+}
+// the chain of offsets, read from the front: a section whose records all stand where rr_off says is accepted as a whole
+pub proof fn lemma_rr_off_shift(b: Seq<u8>, s: int, j: nat)
+    requires rr_at(b, s) is Some
+    ensures rr_off(b, rr_at(b, s)->Some_0, j) == rr_off(b, s, j + 1)
+    decreases j
+{
+    let q = rr_at(b, s)->Some_0;
+    if j == 0 {
+        assert(rr_off(b, s, 0) == s);
+        assert(rr_off(b, s, 1) == rr_at(b, rr_off(b, s, 0))->Some_0);
+    } else {
+        lemma_rr_off_shift(b, s, (j - 1) as nat);
+        assert(rr_off(b, q, j) == rr_at(b, rr_off(b, q, (j - 1) as nat))->Some_0);
+        assert(rr_off(b, s, j + 1) == rr_at(b, rr_off(b, s, j))->Some_0);
+    }
+}
+pub proof fn lemma_rrs_end_chain(b: Seq<u8>, s: int, n: nat)
+    requires forall|j: nat| j < n ==> rr_at(b, #[trigger] rr_off(b, s, j)) is Some
+    ensures rrs_end(b, s, n) == Some(rr_off(b, s, n))
+    decreases n
+{
+    if n > 0 {
+        assert(rr_at(b, rr_off(b, s, 0)) is Some);
+        let q = rr_at(b, s)->Some_0;
+        assert forall|j: nat| j < (n - 1) as nat implies rr_at(b, #[trigger] rr_off(b, q, j)) is Some by {
+            lemma_rr_off_shift(b, s, j);
+            assert(rr_at(b, rr_off(b, s, j + 1)) is Some);
+        }
+        lemma_rrs_end_chain(b, q, (n - 1) as nat);
+        lemma_rr_off_shift(b, s, (n - 1) as nat);
+    }
+}
+pub proof fn lemma_q_off_shift(b: Seq<u8>, s: int, j: nat)
+    requires question_at(b, s) is Some
+    ensures q_from(b, question_at(b, s)->Some_0, j) == q_from(b, s, j + 1)
+    decreases j
+{
+    let q = question_at(b, s)->Some_0;
+    if j == 0 {
+        assert(q_from(b, s, 0) == s);
+        assert(q_from(b, s, 1) == question_at(b, q_from(b, s, 0))->Some_0);
+    } else {
+        lemma_q_off_shift(b, s, (j - 1) as nat);
+        assert(q_from(b, q, j) == question_at(b, q_from(b, q, (j - 1) as nat))->Some_0);
+        assert(q_from(b, s, j + 1) == question_at(b, q_from(b, s, j))->Some_0);
+    }
+}
+pub proof fn lemma_questions_end_chain(b: Seq<u8>, s: int, n: nat)
+    requires forall|j: nat| j < n ==> question_at(b, #[trigger] q_from(b, s, j)) is Some
+    ensures questions_end(b, s, n) == Some(q_from(b, s, n))
+    decreases n
+{
+    if n > 0 {
+        assert(question_at(b, q_from(b, s, 0)) is Some);
+        let q = question_at(b, s)->Some_0;
+        assert forall|j: nat| j < (n - 1) as nat implies question_at(b, #[trigger] q_from(b, q, j)) is Some by {
+            lemma_q_off_shift(b, s, j);
+            assert(question_at(b, q_from(b, s, j + 1)) is Some);
+        }
+        lemma_questions_end_chain(b, q, (n - 1) as nat);
+        lemma_q_off_shift(b, s, (n - 1) as nat);
+    }
+}
+pub proof fn lemma_q_from_12(b: Seq<u8>, j: nat)
+    ensures q_from(b, 12, j) == q_off(b, j)
+    decreases j
+{ if j > 0 { lemma_q_from_12(b, (j - 1) as nat); } }
